@@ -339,6 +339,7 @@ type PickOpt struct {
 	Enabled      func(th *Thread) bool // nil: every parked thread is enabled
 	PreemptCosts bool                  // switching away from the still-enabled last thread is a deviation (cost 1)
 	OfferTime    bool                  // when a thread is blocked inside its step, "let virtual time advance" is offered as an alternative
+	LastYielded  bool                  // the last thread gave up its turn by itself (e.g. its attempt aborted): it is offered last and leaving it is no preemption
 }
 
 // Move is a scheduling decision.
@@ -365,6 +366,10 @@ func (s *Sched) Pick(c Chooser, o PickOpt) (m Move, ok bool) {
 			continue
 		}
 		en = append(en, th)
+	}
+	if lastEnabled && o.LastYielded {
+		en = append(en, s.last)
+		lastEnabled = false
 	}
 	if lastEnabled {
 		en = append([]*Thread{s.last}, en...)
